@@ -544,7 +544,11 @@ func (g *TxnGen) genTxn(t *rapid.T, st State) []Op {
 				ops = append(ops, Op{Op: "select", Table: tb.Name, Where: op.Where})
 				continue
 			}
-			n := rapid.IntRange(1, 2).Draw(t, "nmut")
+			// (three or more: a mutation without effect in between two that have one)
+			n := rapid.SampledFrom([]int{1, 1, 1, 2, 2, 2, 3, 4}).Draw(t, "nmut")
+			if n > 2 {
+				Label("generator", "mutate:3+mutations")
+			}
 			// current value of a targeted row, to bias arguments
 			var curRow Row
 			if us := SortedUUIDs(rows); len(us) > 0 {
